@@ -1,6 +1,7 @@
 import ZarrsModel.Driver.Proto
 import ZarrsModel.Driver.C01
 import ZarrsModel.Driver.C03
+import ZarrsModel.Driver.C05
 import ZarrsModel.Driver.C08
 import ZarrsModel.Driver.C09
 import ZarrsModel.Driver.C10
@@ -23,6 +24,7 @@ open Zarrs Zarrs.Proto
 
 structure DState where
   c01 : DriverC01.St := {}
+  c05 : DriverC05.St := {}
   c08 : DriverC08.St := {}
   c15 : DriverC15.St := {}
   c16 : DriverC16.St := {}
@@ -33,7 +35,7 @@ def dispatch (st : DState) (l : Line) : Option (DState × List String × Option 
   | some "c03" => (DriverC03.handle l).map (fun a => (st, a, none))
   | some "c02" => (DriverC01.handle st.c01 l).map (fun (s, a, n) => ({ st with c01 := s }, a, n))
   | some "c04" => (DriverC01.handle st.c01 l).map (fun (s, a, n) => ({ st with c01 := s }, a, n))
-  | some "c05" => (DriverC01.handle st.c01 l).map (fun (s, a, n) => ({ st with c01 := s }, a, n))
+  | some "c05" => (DriverC05.handle st.c05 l).map (fun (s, a, n) => ({ st with c05 := s }, a, n))
   | some "c06" => (DriverC01.handle st.c01 l).map (fun (s, a, n) => ({ st with c01 := s }, a, n))
   | some "c01" => (DriverC01.handle st.c01 l).map (fun (s, a, n) => ({ st with c01 := s }, a, n))
   | some "c08" => (DriverC08.handle st.c08 l).map (fun (s, a, n) => ({ st with c08 := s }, a, n))
